@@ -618,7 +618,13 @@ class Helper:
         if self.varname:
             var_ok = not any(isinstance(n, ast.Name) and n.id == self.varname and isinstance(n.ctx, (ast.Store, ast.Del)) for n in _walk_fn(fn)) \
                 and not a.kwonlyargs
-        self.simple = var_ok and not a.posonlyargs and kw_ok and not fn.decorator_list and isinstance(fn, ast.FunctionDef)
+        # a memoising decorator on a function that computes its result from its arguments alone changes nothing a caller
+        # can observe through the value (C12-P4 watches the one thing it does change: the result object is shared)
+        memo_only = bool(fn.decorator_list) and all(
+            (lambda d: (d.func if isinstance(d, ast.Call) else d))(d_) is not None and
+            ast.unparse(d_.func if isinstance(d_, ast.Call) else d_) in ("lru_cache", "functools.lru_cache", "cache", "functools.cache")
+            for d_ in fn.decorator_list) and not any(isinstance(n, (ast.Yield, ast.YieldFrom, ast.Global, ast.Nonlocal)) for n in _walk_fn(fn))
+        self.simple = var_ok and not a.posonlyargs and kw_ok and (not fn.decorator_list or memo_only) and isinstance(fn, ast.FunctionDef)
         self.params = [x.arg for x in a.args] + [x.arg for x in a.kwonlyargs]
         self.defaults = {}
         for p, d in zip(reversed(a.args), reversed(a.defaults)):
@@ -2421,6 +2427,50 @@ def expand_table_dispatch(tree):
     return count
 
 
+def expand_dict_get(fn):
+    """N26.  For a local that is bound exactly once, to a dict display / dict comprehension / dict(...) call, `d.get(k)` is
+    `d[k] if k in d else None` and `d.get(k, x)` is `d[k] if k in d else x` (k an effect-free expression)."""
+    binds = {}
+    for a in _walk_fn(fn):
+        if isinstance(a, (ast.Assign, ast.AugAssign, ast.AnnAssign, ast.For, ast.With, ast.NamedExpr)):
+            tg = a.targets if isinstance(a, ast.Assign) else [a.target] if isinstance(a, (ast.AugAssign, ast.AnnAssign, ast.For, ast.NamedExpr)) else \
+                [it.optional_vars for it in a.items if it.optional_vars is not None]
+            for t in tg:
+                for n in ast.walk(t):
+                    if isinstance(n, ast.Name) and isinstance(n.ctx, ast.Store):
+                        binds.setdefault(n.id, []).append(a)
+    dicts = {v for v, bs in binds.items() if len(bs) == 1 and isinstance(bs[0], ast.Assign) and len(bs[0].targets) == 1
+             and isinstance(bs[0].targets[0], ast.Name) and (isinstance(bs[0].value, (ast.Dict, ast.DictComp))
+                                                              or (isinstance(bs[0].value, ast.Call) and _callee(bs[0].value) == "dict"))}
+    dicts -= {a.arg for a in ast.walk(fn.args) if isinstance(a, ast.arg)}
+    if not dicts:
+        return 0
+    count = 0
+
+    class G(ast.NodeTransformer):
+        def visit_FunctionDef(self, node):
+            return node if node is not fn else self.generic_visit(node)
+
+        def visit_Call(self, node):
+            nonlocal count
+            self.generic_visit(node)
+            f = node.func
+            if isinstance(f, ast.Attribute) and f.attr == "get" and isinstance(f.value, ast.Name) and f.value.id in dicts \
+                    and 1 <= len(node.args) <= 2 and not node.keywords and is_pure(node.args[0]):
+                k = node.args[0]
+                d = node.args[1] if len(node.args) == 2 else ast.Constant(value=None)
+                count += 1
+                return ast.copy_location(ast.IfExp(
+                    test=ast.Compare(left=copy.deepcopy(k), ops=[ast.In()], comparators=[ast.Name(id=f.value.id, ctx=ast.Load())]),
+                    body=ast.Subscript(value=ast.Name(id=f.value.id, ctx=ast.Load()), slice=copy.deepcopy(k), ctx=ast.Load()),
+                    orelse=d), node)
+            return node
+    G().visit(fn)
+    if count:
+        ast.fix_missing_locations(fn)
+    return count
+
+
 def fuse_generator_loops(tree, shape):
     """N25.  `for T in gen(args): BODY` over a new generator function of the module is the generator's body with every
     `yield X` replaced by `T = X; BODY` (consumer fused into producer), when the generator only yields at statement level,
@@ -2564,6 +2614,8 @@ def normalise(tree, modname, shape_all=None, keep=frozenset()):
         pinned = shape["functions"].get(q)
         if pinned is None:
             continue
+        if pinned.get("ifexp", 0) == 0 and expand_dict_get(fn):
+            log.setdefault("dict_get", []).append(q)
         if unroll_singleton_loops(fn):
             log.setdefault("unrolled", []).append(q)
         if unfold_genexp_loops(fn):
